@@ -3,6 +3,8 @@
 //! usage: implrun <driver> [args] < cases > results     (one result line per case line)
 mod codec;
 mod codegen;
+mod fabric;
+mod simnet;
 mod layers;
 mod router;
 mod timeout;
@@ -19,6 +21,7 @@ fn main() {
     match args[1].as_str() {
         "codec" => codec::run(),
         "codegen" => codegen::run(),
+        "simnet" => simnet::run(),
         "layers" => layers::run(),
         "router" => router::run(),
         "timeout" => timeout::run(),
